@@ -270,7 +270,7 @@ var CanonicalLocal func(*ssa.Alloc) string
 func Path(v ssa.Value) string {
 	switch x := v.(type) {
 	case *ssa.Parameter:
-		return x.Name()
+		return ParamName(x)
 	case *ssa.FreeVar:
 		return x.Name()
 	case *ssa.Global:
@@ -282,6 +282,14 @@ func Path(v ssa.Value) string {
 			}
 		}
 		if x.Comment != "" {
+			// a spilled receiver / parameter is named like the parameter it holds
+			if fn := x.Parent(); fn != nil {
+				for _, prm := range fn.Params {
+					if prm.Name() == x.Comment {
+						return ParamName(prm)
+					}
+				}
+			}
 			return x.Comment
 		}
 		return ""
@@ -329,7 +337,7 @@ func fieldName(t types.Type, i int) string {
 		t = p.Elem()
 	}
 	if s, ok := t.Underlying().(*types.Struct); ok && i < s.NumFields() {
-		return s.Field(i).Name()
+		return CanonFieldName(s.Field(i))
 	}
 	return fmt.Sprintf("#%d", i)
 }
@@ -374,12 +382,12 @@ func Root(v ssa.Value) ssa.Value {
 // TypeString renders a type with the module prefix and go/ package prefixes
 // kept (qualified by path), so tables can be compared.
 func TypeString(t types.Type) string {
-	return types.TypeString(t, func(p *types.Package) string { return p.Path() })
+	return canonTypeString(types.TypeString(t, func(p *types.Package) string { return p.Path() }))
 }
 
 // ShortType renders a type qualified by package name only.
 func ShortType(t types.Type) string {
-	return types.TypeString(t, func(p *types.Package) string { return p.Name() })
+	return canonTypeString(types.TypeString(t, func(p *types.Package) string { return p.Name() }))
 }
 
 // IsNamed reports whether t (or *t) is the named type path.name.
@@ -392,7 +400,7 @@ func IsNamed(t types.Type, path, name string) bool {
 		return false
 	}
 	o := n.Obj()
-	return o.Name() == name && o.Pkg() != nil && o.Pkg().Path() == path
+	return CanonTypeName(o) == name && o.Pkg() != nil && o.Pkg().Path() == path
 }
 
 // HasResultTypes reports whether sig's results end with the named types given
@@ -468,4 +476,13 @@ func ConstIntOf(v constant.Value) (int64, bool) {
 		return 0, false
 	}
 	return constant.Int64Val(v)
+}
+
+// ParamName is the name the rules know a receiver or parameter by: its
+// baseline name when it was merely renamed.
+func ParamName(p *ssa.Parameter) string {
+	if v, ok := p.Object().(*types.Var); ok && v != nil {
+		return CanonParamName(v)
+	}
+	return p.Name()
 }
